@@ -66,8 +66,34 @@ def build():
                 assert(cert_ok(cnf, *crt, root_certs@, cert)); //@C10.certificate_hooks_split_by_type,C13.file_manager_carries_the_configured_modes_and_owners,C14.values_come_from_the_most_specific_wins_getters
             }"""),
             ])})
+    u.raw("main_event_loop", RUN_SPEC, trusted=True)
+    u.verify(M, "MainEventLoop::run", "main_event_loop", props=["C09"], fns={"run": FnSpec(sig="""
+    ensures *final(self) == *old(self),
+""", loops={r"\.certificates\b": """
+    invariant *self == *old(self),
+        // every task works with the account and the endpoint objects of the event loop themselves: all the certificates of an
+        // endpoint go through one rate limiter and one nonce store
+        forall|i: int| 0 <= i < renewals.v@.len() ==> task_ok(#[trigger] renewals.v@[i], *self), //@C09.certificates_of_an_endpoint_share_its_limiter
+""", r"^loop$": """
+    invariant *self == *old(self),
+        forall|i: int| 0 <= i < renewals.v@.len() ==> task_ok(#[trigger] renewals.v@[i], *self), //@C09.certificates_of_an_endpoint_share_its_limiter
+"""}, attrs="#[verifier::exec_allows_no_decreases_clause]",
+        rewrites=[("T-ITER", r"for \(_, (?P<c>\w+)\) in self\.certificates\.iter_mut\(\)", r"for \g<c> in self.certificates.values_vec()"),
+                  ("T-ITER", r"for (?P<c>\w+) in self\.certificates\.values_mut\(\)", r"for \g<c> in self.certificates.values_vec()", None)][:1])})
     return u
 
+
+RUN_SPEC = """
+// one renewal task as T-ASYNC leaves it: the certificate it is for and the two shared handles it works with
+pub open spec fn task_ok(t: (&Certificate, AccountSync, EndpointSync), l: MainEventLoop) -> bool {
+    l.endpoints@.dom().contains(t.0.endpoint_name@) && t.2.cell == l.endpoints@[t.0.endpoint_name@].cell
+    && l.accounts@.dom().contains(t.0.account_name@) && t.1.cell == l.accounts@[t.0.account_name@].cell
+}
+// main_event_loop.rs::renew_certificate (verified in unit renew: one attempt, then the same handles are handed back)
+#[verifier::external_body]
+fn renew_certificate<'a>(certificate: &'a Certificate, account_s: AccountSync, endpoint_s: EndpointSync) -> (r: (&'a Certificate, AccountSync, EndpointSync))
+    ensures r.0 == certificate && r.1 == account_s && r.2 == endpoint_s { unimplemented!() }
+"""
 
 CERT_STUBS = """
 // certificate.rs::Certificate::get_id: "<crt_name>_<key_type>"
